@@ -192,6 +192,11 @@ def patch(tn, tw, tl, tx, x, y):
         p["layers"] = [{"classes": [{"name": x}, {"__type__": "class", "name": y}], "status": "__delete__"}]
     elif tl == 5:
         p["layers"] = [{"classes": [{"__delete__": True}]}, {"__delete__": True}]
+    elif tl == 6:
+        # several appended items that differ: each becomes its own object
+        p["layers"] = [None, None, {"__type__": "layer", "name": x}, {"__type__": "layer", "name": y, "type": x}, {"status": y}]
+    elif tl == 7:
+        p["outputformats"] = [{"name": x}, {"name": y, "driver": x}]      # key absent from d1: every item is appended
     if tx == 1:
         p["extent"] = [x, y, x, y]
     elif tx == 2:
@@ -229,7 +234,7 @@ INFO = {
     "functions": ["mappyfile.dictutils.find", "mappyfile.dictutils.findall", "mappyfile.dictutils.findunique",
                   "mappyfile.dictutils.findkey", "mappyfile.dictutils.update"],
     "bounds": {"find_items": 3, "value_len": "0..2 over alphabet a..c", "query_len": "0..2", "update_depth": 3,
-               "patch_shapes": "3 x 5 x 6 x 4 tags", "item_kinds": ["CaseInsensitiveOrderedDict(auto-creating)", "OrderedDict", "dict"]},
+               "patch_shapes": "4 x 5 x 8 x 4 tags", "item_kinds": ["CaseInsensitiveOrderedDict(auto-creating)", "OrderedDict", "dict"]},
     "outside": ["patches that delete a key absent from d1 via a dict marker, None placeholders beyond the end of the list, "
                 "empty-list values (statement silent)", "lists longer than 3"],
     "assumptions": [],
@@ -269,7 +274,7 @@ def _update_obs(tier):
     obs = []
     params = [("a", "int"), ("b", "int"), ("c", "int"), ("e", "int"), ("f", "int"), ("x", "int"), ("y", "int"),
               ("kind", "int"), ("tn", "int"), ("tw", "int"), ("tl", "int"), ("tx", "int"), ("ow", "bool")]
-    for tl in range(6):
+    for tl in range(8):
         pre = f"(kind >= 0) & (kind < 2) & (tn >= 0) & (tn < 4) & (tw >= 0) & (tw < 5) & (tl == {tl}) & (tx >= 0) & (tx < 4)"
         src = PRELUDE + UPD_PRE + harness("h", params, pre, UPDATE)
         obs.append(Ob(name=f"C18-UPDATE/law.tl{tl}", source=src, pct=400, timeout=500,
